@@ -65,7 +65,7 @@ pub static INFO: PropInfo = PropInfo {
 };
 
 pub fn run(ctx: &Ctx, out: &mut Outcome) {
-    super::run_loop(ctx, out, 16_000, 1_600_000, 18, one_run);
+    super::run_loop(ctx, out, 120_000, 6_000_000, 18, one_run);
 }
 
 #[derive(Clone)]
